@@ -6,7 +6,7 @@
 use std::collections::{HashMap, BTreeMap};
 use std::sync::{Arc, RwLock, Mutex};
 use std::time::{SystemTime, UNIX_EPOCH};
-use crate::storage::stream::{StreamId, StreamEntry};
+use crate::storage::stream::{StreamId, StreamEntry, EntryFields};
 
 /// Consumer group for coordinated stream consumption
 #[derive(Debug, Clone)]
@@ -182,7 +182,7 @@ impl ConsumerGroup {
     }
     
     /// Add entries to pending list when delivered via XREADGROUP
-    pub fn add_pending(&self, consumer: &str, entries: Vec<StreamEntry>) -> Vec<StreamEntry> {
+    pub fn add_pending<F: EntryFields>(&self, consumer: &str, entries: Vec<StreamEntry<F>>) -> Vec<StreamEntry<F>> {
         let mut pending = self.pending.write().unwrap();
         let now = SystemTime::now();
         
